@@ -18,9 +18,11 @@ Definition vnat (n : nat) : val := VN (N.of_nat n).
 
 Definition dec_texpr (k : N) (text : list N) : texpr :=
   if k =? 0 then TConnect else if k =? 1 then TCommand else if k =? 2 then TData
-  else if k =? 3 then TSingle else if k =? 4 then TIdle else TOther (string_of_bytes text).
+  else if k =? 3 then TSingle else if k =? 4 then TIdle else if k =? 6 then TExpired
+  else TOther (string_of_bytes text).
 Definition enc_texpr (e : texpr) : N :=
-  match e with TConnect => 0 | TCommand => 1 | TData => 2 | TSingle => 3 | TIdle => 4 | TOther _ => 5 end.
+  match e with TConnect => 0 | TCommand => 1 | TData => 2 | TSingle => 3 | TIdle => 4 | TOther _ => 5
+                  | TExpired => 6 end.
 Definition enc_scope (o : option texpr) : val :=
   match o with None => VL [] | Some e => VL [VN (enc_texpr e)] end.
 Definition dec_scope (v : val) : option texpr :=
